@@ -154,19 +154,19 @@ theorem handleIdentifiedArg_owner (cfg : Cfg) (v : View) (H h : HState) (i loc :
 
 /-! ### what a successful use changes in the merged state -/
 
-theorem assignValue_ok {H H' : HState} {i : Nat} {d : ArgDef} {value : Word} {b : Bool}
+theorem assignValue_ok_g {H H' : HState} {i : Nat} {d : ArgDef} {value : Word} {b : Bool}
     (h : assignValue H i d value b = .ok H') :
     ∃ st', H'.args = H.args.set i st' ∧ H'.pending = activateConstraints d.constraints H.pending ∧
       H'.globals = H.globals ∧ H'.lastArg = H.lastArg ∧ H'.inverted = H.inverted ∧ H'.fromSrc = H.fromSrc ∧
       H.inverted = false := by
-  rw [assignValue_eq, bind_eq_ok] at h
+  rw [assignValue_eq, bind_eq_ok_g] at h
   obtain ⟨st', hs, h⟩ := h
   cases h
   refine ⟨st', rfl, rfl, rfl, rfl, rfl, rfl, ?_⟩
   unfold argStep at hs
-  simp only [bind_eq_ok] at hs
+  simp only [bind_eq_ok_g] at hs
   obtain ⟨_, _, _, _, _, h3, _⟩ := hs
-  exact throwIf_eq_ok.mp h3
+  exact throwIf_eq_ok_g.mp h3
 
 theorem handleIdentifiedArg_ok {c : Cfg} {H H' : HState} {i : Nat} {d : ArgDef} {value : Word}
     (h : handleIdentifiedArg c H i d value = .ok H') :
@@ -174,7 +174,7 @@ theorem handleIdentifiedArg_ok {c : Cfg} {H H' : HState} {i : Nat} {d : ArgDef} 
       H'.args = H.args.set i st' ∧ H'.pending = activateConstraints d.constraints P ∧
       H'.globals = G ∧ H'.lastArg = H.lastArg ∧ H'.inverted = false ∧ H'.fromSrc = H.fromSrc := by
   rw [handleIdentifiedArg_eq] at h
-  simp only [bind_eq_ok] at h
+  simp only [bind_eq_ok_g] at h
   obtain ⟨P, hP, G, hG, st', _, h⟩ := h
   cases h
   exact ⟨P, G, st', hP, hG, rfl, rfl, rfl, rfl, rfl, rfl⟩
